@@ -52,28 +52,93 @@ class EqInfo:
                 out |= self._expand(n.attr) if n.attr != attr else {attr}
         return out or {attr}
 
+    def _byte_level(self, fn):
+        """both operands are serialised into their own scratch buffer and the buffers' contents are compared"""
+        sn, on = self.sn, self.on
+        defs = {}
+        for n in walk_no_nested(fn):
+            if isinstance(n, ast.Assign) and len(n.targets) == 1 and isinstance(n.targets[0], ast.Name):
+                defs.setdefault(n.targets[0].id, []).append(n.value)
+        owner = {}  # buffer name -> operand written into it
+        for c in walk_no_nested(fn):
+            if isinstance(c, ast.Call) and isinstance(c.func, ast.Attribute) and c.func.attr in ("_write", "write", "bwrite") and isinstance(c.func.value, ast.Name) \
+                    and c.func.value.id in (sn, on) and c.args and isinstance(c.args[0], ast.Name):
+                b = c.args[0].id
+                if len(defs.get(b, [])) == 1 and isinstance(defs[b][0], ast.Call) and norm(defs[b][0].func) in ("BytesIO", "io.BytesIO") and not defs[b][0].args:
+                    owner[b] = None if b in owner else c.func.value.id
+
+        def content_of(e, depth=0):
+            if isinstance(e, ast.Name) and len(defs.get(e.id, [])) == 1 and depth < 4:
+                return content_of(defs[e.id][0], depth + 1)
+            if isinstance(e, ast.Call) and isinstance(e.func, ast.Attribute) and e.func.attr in ("getvalue", "getbuffer") and isinstance(e.func.value, ast.Name):
+                return owner.get(e.func.value.id)
+            return None
+
+        rets = [s_ for s_ in walk_no_nested(fn) if isinstance(s_, ast.Return) and s_.value is not None]
+        cmp_ = [r for r in rets if isinstance(r.value, ast.Compare) and len(r.value.ops) == 1 and isinstance(r.value.ops[0], ast.Eq)
+                and {content_of(r.value.left), content_of(r.value.comparators[0])} == {sn, on}]
+        others = [r for r in rets if r not in cmp_ and not (isinstance(r.value, ast.Constant) and r.value.value in (False, NotImplemented))
+                  and not norm(r.value) == "NotImplemented"]
+        return bool(cmp_) and not others
+
+    def _truthy_paths(self, fn):
+        """[conjunct list] for every path on which __eq__ can return a true value: the guards that hold on the path (a guard
+        that must be false contributes its negation, which compares the same attributes) and the conjuncts of the value"""
+        out = []
+        for guards, leaf, pe in facts.return_leaves(fn):
+            if leaf is None:
+                continue
+            if isinstance(leaf, ast.Constant) and not leaf.value:
+                continue
+            if norm(leaf) == "NotImplemented":
+                continue
+            if any(norm(t) == norm(leaf) and not pol for t, pol in guards):
+                continue  # `if not c: return c`
+            conj = []
+            for t, pol in guards:
+                while isinstance(t, ast.UnaryOp) and isinstance(t.op, ast.Not):
+                    t, pol = t.operand, not pol
+                if isinstance(t, ast.Call) and isinstance(t.func, ast.Name) and t.func.id in ("__loop__", "__except__"):
+                    continue
+                conj += conjuncts(t) if pol else [t]
+            if not (isinstance(leaf, ast.Constant) and leaf.value is True):
+                conj += conjuncts(leaf)
+            out.append((conj, pe.node))
+        return out
+
     def _parse(self):
         fn = self.f.node
         sn, on = self.sn, self.on
-        # byte-level: both operands serialised, buffers compared
-        writes = [c for c in walk_no_nested(fn) if isinstance(c, ast.Call) and isinstance(c.func, ast.Attribute) and c.func.attr in ("_write", "write", "bwrite") and isinstance(c.func.value, ast.Name) and c.func.value.id in (sn, on)]
-        rets = [s for s in walk_no_nested(fn) if isinstance(s, ast.Return) and s.value is not None]
-        if {c.func.value.id for c in writes} == {sn, on} and any(isinstance(r.value, ast.Compare) and "getvalue" in norm(r.value) for r in rets):
+        if self._byte_level(fn):
             self.byte_level = True
             return
-        main = [r for r in rets if not (isinstance(r.value, ast.Constant))]
-        if not main:
+        paths = self._truthy_paths(fn)
+        if not paths:
             return
-        self.ret = main[-1]
-        self.conj = conjuncts(main[-1].value)
-        for cj in self.conj:
+        self.ret = paths[-1][1]
+        covered_sets = []
+        for conj, node in paths:
+            cov = {}
+            for cj in conj:
+                if all(cj is not x for x in self.conj):
+                    self.conj.append(cj)
+                self._conjunct(cj, cov)
+            covered_sets.append(cov)
+        common = set(covered_sets[0])
+        for cov in covered_sets[1:]:
+            common &= set(cov)
+        for a in common:
+            self.covered[a] = covered_sets[0][a]
+
+    def _conjunct(self, cj, covered):
+        sn, on = self.sn, self.on
+        if True:
             sa, oa = attrs_of(cj, sn), attrs_of(cj, on)
             both = set()
             for a in sa & oa:
                 both |= self._expand(a)
             for a in both:
-                self.covered.setdefault(a, cj)
-            text = norm(cj).replace(" ", "")
+                covered.setdefault(a, cj)
             # length conjunct
             if isinstance(cj, ast.Compare) and isinstance(cj.left, ast.Call) and norm(cj.left.func) == "len":
                 for a in both:
@@ -87,14 +152,14 @@ class EqInfo:
                     if isinstance(a, ast.Attribute) and isinstance(a.value, ast.Name) and a.value.id in (sn, on):
                         za |= self._expand(a.attr)
                 for a in za:
-                    self.elementwise.append((a, cj))
-                    if not strict:
+                    if (a, cj) not in self.elementwise:
+                        self.elementwise.append((a, cj))
+                    if not strict and (a, cj) not in self.zip_only:
                         self.zip_only.append((a, cj))
             # direct list/array equality counts as length-aware
-            if isinstance(cj, ast.Compare) and len(cj.ops) == 1 and isinstance(cj.ops[0], ast.Eq) and not zips:
+            if isinstance(cj, ast.Compare) and len(cj.ops) == 1 and isinstance(cj.ops[0], (ast.Eq, ast.NotEq)) and not zips:
                 for a in both:
                     self.len_checked.add(a)
-                    self.elementwise.append((a, cj)) if False else None
             # numpy comparisons
             for c in ast.walk(cj):
                 if isinstance(c, ast.Call) and norm(c.func) in ("np.array_equal", "np.allclose", "numpy.array_equal", "numpy.allclose", "np.isclose"):
@@ -102,7 +167,7 @@ class EqInfo:
                     for a in (attrs_of(c, sn) & attrs_of(c, on)):
                         for ea in self._expand(a):
                             self.len_checked.add(ea) if norm(c.func).endswith("array_equal") else None
-                            if not en:
+                            if not en and (ea, cj, norm(c.func)) not in self.nan_unaware:
                                 self.nan_unaware.append((ea, cj, norm(c.func)))
                 if isinstance(c, ast.Call) and norm(c.func) in ("np.all", "numpy.all", "all") and c.args and isinstance(c.args[0], ast.Compare):
                     cmp_ = c.args[0]
